@@ -1,10 +1,11 @@
 package rig
 
 import (
+	"os"
 	"errors"
-	"sync"
 	"fmt"
 	"net"
+	"sync"
 	"syscall"
 	"time"
 	"unsafe"
@@ -61,6 +62,18 @@ func NewPeer(local, remote string) (*Peer, error) {
 	if err != nil {
 		return nil, err
 	}
+	c, err := listenPeerSocket(la.String())
+	if err != nil {
+		return nil, err
+	}
+	p := &Peer{Local: c.LocalAddr().(*net.UDPAddr), Remote: ra, c: c, RecoveryTS: time.Unix(1700000000, 0),
+		in: make(chan Dgram, 4096), closed: make(chan struct{})}
+	go p.reader()
+	return p, nil
+}
+
+// listenPeerSocket opens a peer socket with kernel receive timestamps.
+func listenPeerSocket(local string) (*net.UDPConn, error) {
 	lc := net.ListenConfig{Control: func(network, address string, c syscall.RawConn) error {
 		var e error
 		if err := c.Control(func(fd uintptr) {
@@ -73,16 +86,31 @@ func NewPeer(local, remote string) (*Peer, error) {
 		}
 		return e
 	}}
-	pc, err := lc.ListenPacket(nil, "udp4", la.String()) //nolint:staticcheck
+	pc, err := lc.ListenPacket(nil, "udp4", local) //nolint:staticcheck
 	if err != nil {
 		return nil, err
 	}
 	c := pc.(*net.UDPConn)
 	_ = c.SetReadBuffer(4 << 20)
-	p := &Peer{Local: c.LocalAddr().(*net.UDPAddr), Remote: ra, c: c, RecoveryTS: time.Unix(1700000000, 0),
-		in: make(chan Dgram, 4096), closed: make(chan struct{})}
+	return c, nil
+}
+
+// Vanish closes the peer's socket while keeping the Peer: the peer process died but its host is reachable, so
+// the agent's next datagram to it is refused (ICMP port unreachable -> ECONNREFUSED on the agent's socket).
+func (p *Peer) Vanish() { p.c.Close() }
+
+// Reappear binds the address and port the peer had before it vanished.
+func (p *Peer) Reappear() error {
+	c, err := listenPeerSocket(p.Local.String())
+	if err != nil {
+		return err
+	}
+	p.c = c
+	if os.Getenv("VERIF_DEBUG_PEER") != "" {
+		fmt.Fprintf(os.Stderr, "PEER reappear %v -> %v\n", c.LocalAddr(), p.Remote)
+	}
 	go p.reader()
-	return p, nil
+	return nil
 }
 
 func (p *Peer) Close() {
@@ -164,6 +192,9 @@ func (p *Peer) HBSeen() []HBReq {
 // SendRaw sends bytes to the agent.
 func (p *Peer) SendRaw(b []byte) error {
 	_, err := p.c.WriteToUDP(b, p.Remote)
+	if err != nil && os.Getenv("VERIF_DEBUG_PEER") != "" {
+		fmt.Fprintf(os.Stderr, "PEER send error %v: %v\n", p.c.LocalAddr(), err)
+	}
 	return err
 }
 
